@@ -28,6 +28,72 @@ TITLES = {
 
 # property -> (technique, level text, level note, design section)
 CHECKS = {
+    "C05": (
+        "exhaustive small effect families + Hypothesis-generated group items; oracle = block structure recomputed from labels "
+        "and frame (clause A) and linear-algebra span equality with J (.) R_e (clause B)",
+        "Clause A on arbitrary and factorial frames: for every group-specific term the cells (sorted levels, lexicographic "
+        "cells of g1:g2), `groups`, the label order (group slowest) and every column (effect column on the rows of its cell, "
+        "0 elsewhere) are recomputed from the frame; slices must cover the matrix in term order.  Clause B on replicated "
+        "complete factorials: per grouping factor the stacked blocks must be independent and span the row-wise Kronecker "
+        "product of complete group indicators with the complete coding of the effect family.  All effect families of <= 2 "
+        "terms over f h x z x {g, g:s} x group intercept are enumerated; random items cover g+s, g/s, C(k), scale, poly.",
+        "Exploration.  One open known finding (KF-C05-1, the 'reduced iff (1|g)' simplification) is excluded from clause B by "
+        "a structural predicate: the column count of that rule differs from the dimension of the group-by-cell space.",
+        "DESIGN.md section 3, C05",
+    ),
+    "C06": (
+        "Hypothesis-generated (formula, frame, row multisets); round-trip oracle: evaluate_new_data(rows of D) == training rows, "
+        "plus bit-identical snapshots of all remembered state",
+        "Formulas over every atom kind (nested / interacting stateful transforms, C/T/S with reference, omit and levels= "
+        "options, ordered categoricals, a user-registered stateful transform, group items) are built on arbitrary frames; "
+        "common and group matrices are re-evaluated on single rows, reversed, repeated and drawn subsets and on subsets "
+        "constructed to lack a level, the reference level, a whole group or the extreme values, with and without unused "
+        "categories dropped; values, shapes, labels and the parameters of every stateful transform, levels and contrast "
+        "matrices are compared.",
+        "Exploration.  Aggregating non-stateful user functions are outside the statement and not generated.",
+        "DESIGN.md section 3, C06",
+    ),
+    "C08": (
+        "Hypothesis-generated (formula, frame, transformation); metamorphic oracle on complete design summaries",
+        "Row permutations (index kept / reset) must permute response, common and group matrices and change nothing else "
+        "(labels, slices, levels, groups, fitted parameters within 1e-9); exotic indexes (non-unique strings, floats, "
+        "negative, MultiIndex), column permutations and added / removed unused columns (numeric, string, all-NaN, object, "
+        "categorical) must leave everything exactly equal.",
+        "Exploration.  Floating-point tolerance only for permutations (summation order).",
+        "DESIGN.md section 3, C08",
+    ),
+    "C09": (
+        "Hypothesis-generated (formula, frame with missing values, policy); differential against the library on the frame "
+        "without the incomplete rows, with the set of used columns computed by the harness",
+        "drop: exact equality (matrices, labels, slices, levels, transform parameters) with the design built on "
+        "frame[complete rows], aligned row counts; error: raises iff a used column has a missing value; pass: row count, "
+        "complete rows as under drop, NaN exactly in the columns that mention the missing numeric variable; other "
+        "na_action values refused.  Variables occur bare, inside calls (keyword, nested, operators, back-quoted names).",
+        "Exploration.  'pass' judged only on the sub-language the statement names.",
+        "DESIGN.md section 3, C09",
+    ),
+    "C10": (
+        "Hypothesis-generated (design, new rows, injected unseen values, mode sequence) + exhaustive configuration pool; "
+        "metamorphic oracle (same rows without the unseen value, plus the zeroing / extra-slot rule)",
+        "error mode must raise ValueError; warning / silent must zero exactly the columns whose label involves the variable on "
+        "exactly the injected rows, warn / not warn; group terms of an affected factor get one trailing slot with the effect "
+        "values of exactly the new-group rows, training slots zero there, other terms unchanged, contiguous slices, "
+        "factors_with_new_levels exact; derived objects are evaluated again (chained); mode sequences of up to 4 changes; "
+        "every key / value / way of setting the configuration from a pool is enumerated.",
+        "Exploration.",
+        "DESIGN.md section 3, C10",
+    ),
+    "C13": (
+        "exhaustive enumeration of coding objects and levels= permutations + Hypothesis-generated coding swaps; algebraic "
+        "validity predicates and span equality",
+        "Every Treatment / Sum object for 1..12 levels (string and integer) and every reference / omit choice is checked for "
+        "shape, rank with the constant, indicator / sum-to-zero structure and labels; every permutation of <= 4 (quick) / 5 "
+        "levels is passed as levels= to C / T / S in designs with and without intercept and the resulting labels and columns "
+        "compared with the coding the options describe; random families have each factor's coding swapped among ten "
+        "spellings and both designs must be of full rank with equal column spaces.",
+        "Exploration.  Numerical rank for interchangeability.",
+        "DESIGN.md section 3, C13",
+    ),
     "C01": (
         "exhaustive enumeration of token sequences + Hypothesis grammar-generated sentences, near-miss mutations and "
         "character-level strings; differential against an independent reference tokeniser and precedence-climbing "
